@@ -117,20 +117,31 @@ func (q *Queue) Add(elem *queue.Elem) (err error) {
 		drop = true
 
 		// drop expired inflight message
-		if v := q.l.Front(); v != q.current &&
-			v != nil &&
-			queue.ElemExpiry(now, v.Value.(*queue.Elem)) {
-			dropElem = v
-			dropErr = queue.ErrDropExpiredInflight
-			return
+		// Inflight elements carry a packet id and always precede the non-inflight ones,
+		// whether or not they have been replayed since the last Init.
+		var unread *list.Element // the first non-inflight element
+		for v := q.l.Front(); v != nil; v = v.Next() {
+			e := v.Value.(*queue.Elem)
+			if e.ID() == 0 {
+				unread = v
+				break
+			}
+			if queue.ElemExpiry(now, e) {
+				dropElem = v
+				dropErr = queue.ErrDropExpiredInflight
+				return
+			}
 		}
 
 		// drop the current elem if there is no more non-inflight messages.
-		if q.inflightDrained && q.current == nil {
+		if unread == nil {
 			return
 		}
-		for e := q.current; e != nil; e = e.Next() {
-			pub := e.Value.(*queue.Elem).MessageWithID.(*queue.Publish)
+		for e := unread; e != nil; e = e.Next() {
+			pub, ok := e.Value.(*queue.Elem).MessageWithID.(*queue.Publish)
+			if !ok {
+				continue
+			}
 			// drop expired non-inflight message
 			if pub.ID() == 0 &&
 				queue.ElemExpiry(now, e.Value.(*queue.Elem)) {
@@ -149,13 +160,8 @@ func (q *Queue) Add(elem *queue.Elem) (err error) {
 		if elem.MessageWithID.(*queue.Publish).QoS == packets.Qos0 {
 			return
 		}
-
-		if q.inflightDrained {
-			// drop the front message
-			dropElem = q.current
-			return
-		}
-		// the messages in the queue are all inflight messages, drop the current elem
+		// drop the front message
+		dropElem = unread
 		return
 	}
 	return nil
